@@ -69,6 +69,38 @@ def specs(ctx, n):
     return out
 
 
+def smbo_warm_specs(ctx):
+    """the model-based optimizers with a warm_start_smbo frame mixing in-space, out-of-space and non-finite rows, searched beyond the
+    initialisation (the first model-based step is where the frame's rows are used)"""
+    import inspect
+    import pandas as pd
+    rng = ctx.sub_rng("smbo-warm")
+    out = []
+    names = [n for n in gen.ALL if "warm_start_smbo" in inspect.signature(gen.opt_class(n).__init__).parameters]
+    for rd in range(1 if ctx.quick else 5):
+        for name in names:
+            sp = dunit.general_spec(rng, name, max_calls=2, memory=None, verbosity=False, metrics=0, sizes=(3, 5, 8), max_points=60, n_max=8, ndims=rng.choice([1, 2]))
+            space = sp["space"]
+            pnames = list(space.keys())
+            rows = []
+            for _ in range(rng.randint(3, 7)):
+                row = {n_: float(space[n_][rng.randrange(len(space[n_]))]) for n_ in pnames}
+                kind = rng.choice(["in", "in", "out", "out", "nonfinite"])
+                if kind == "out":
+                    row[rng.choice(pnames)] += 0.3125
+                row["score"] = float(rng.choice([-2.0, 0.5, 3.0])) if kind != "nonfinite" else rng.choice([math.nan, math.inf, -math.inf])
+                rows.append(row)
+            sp["cfg"] = dict({k: v for k, v in (sp["cfg"] or {}).items() if k != "warm_start_smbo"}, warm_start_smbo=pd.DataFrame(rows))
+            sp["init"] = {"random": rng.choice([2, 3])}
+            n_inits = sum(v for v in sp["init"].values())
+            sp["calls"] = [dict(n_iter=n_inits + rng.choice([2, 4]), memory=rng.random() < 0.5, verbosity=False)] + \
+                          ([dict(n_iter=3, memory=False, verbosity=False)] if rng.random() < 0.5 else [])
+            sp["feasible"] = None
+            sp["steps_api"] = False
+            out.append(sp)
+    return out
+
+
 def pre_build(ctx):
     import gen_units
     gen_units.pre_build(ctx, "translate_search")
@@ -80,12 +112,13 @@ def run(ctx):
     u = ctx.unit("D:search(call histories)", "D",
                  "1-4 consecutive search() calls (N from 0 to 14, smaller/larger than n_inits and population; every verbosity setting), all "
                  "optimizers in rotation, populations 1..12, degenerate (single-point / size-1) spaces, memory on/off, "
-                 "virtual clock with optional read cost; the model driver replays the recorded proposals; "
+                 "virtual clock with optional read cost; model-based optimizers with warm_start_smbo frames (in-space, out-of-space, non-finite rows) searched past "
+                 "the initialisation; the model driver replays the recorded proposals; "
                  "non-trivial = >= 2 steps in total; distinct by (optimizer, config, space shape, call sizes, seed)")
     ctx.monitor_rule = ("after every call: rows == sum N, n_init_total == min(n_inits, sum N), init+iter counters == rows, "
                         "one eval_time/iter_time per step with 0 <= eval <= iter, no exception")
     results = []
-    for spec in specs(ctx, 150 if ctx.quick else 900):
+    for spec in specs(ctx, 150 if ctx.quick else 900) + smbo_warm_specs(ctx):
         r = dunit.run_case(spec)
         results.append((spec, r))
         key = (spec["name"], repr(spec["cfg"]), tuple(m[2] for m in spec["meta"]), tuple(c["n_iter"] for c in spec["calls"]), spec["seed"])
